@@ -454,6 +454,23 @@ def run(case):
                     viol.append({"kind": "ignore_percentile_differs", "msg": f"kMinPathErrorCycles on {pin['arcs']}: elements_to_ignore_percentile={pct} gives {res[0]}, ignoring {low} explicitly gives {res[1]}"})
                 elif res[0][0] == "solved":
                     nt.append(f"{key}|pct{pct}")
+            # the same in node mode (node twin of the perturbed instance): percentile over the node values
+            ntw = sweep.node_twin(pin)
+            nv = {v_: x_ for v_, x_ in ntw["node_w"].items() if x_ is not None}
+            for pct in (25, 50):
+                thr = np.percentile(list(nv.values()), pct)
+                lown = [v_ for v_ in V if v_ in nv and nv[v_] < thr]
+                if not lown or len(lown) == len(nv):
+                    continue
+                res = []
+                for kwx in ({"elements_to_ignore_percentile": pct}, {"elements_to_ignore": list(lown)}):
+                    o = drivers.observe(dict(ntw, cls="kMinPathErrorCycles", kw=dict(kwx, k=2, weight_type="int", flow_attr_origin="node")))
+                    res.append(("exc", o["exc_type"], (o["exc"] or "")[:80]) if o["exc"] else (("solved", round(float(o["obj"]), 5)) if o["solved"] else ("unsolved",)))
+                tags["ignore_percentile_node"] += 1
+                if res[0] != res[1]:
+                    viol.append({"kind": "ignore_percentile_differs", "msg": f"kMinPathErrorCycles (node mode) on node values {nv}: elements_to_ignore_percentile={pct} gives {res[0]}, ignoring {lown} explicitly gives {res[1]}"})
+                elif res[0][0] == "solved":
+                    nt.append(f"{key}|node_pct{pct}")
 
     elif fam == "starts_ends":
         pin = sweep.perturbed(inst)
